@@ -63,7 +63,8 @@ def ensure_env():
     """Re-exec with the pinned environment (hash seed, BLAS threads, backend)."""
     want = {"PYTHONHASHSEED": os.environ.get("VERIF_HASHSEED", "0"),
             "OPENBLAS_NUM_THREADS": "1", "OMP_NUM_THREADS": "1",
-            "MKL_NUM_THREADS": "1", "MPLBACKEND": "Agg",
+            "MKL_NUM_THREADS": "1", "MPLBACKEND": "Agg", "PYTHONUTF8": "1",
+            "LC_ALL": "C.UTF-8", "TZ": "UTC",
             "PYTHONDONTWRITEBYTECODE": "1"}
     if any(os.environ.get(k) != v for k, v in want.items()):
         env = dict(os.environ)
@@ -149,7 +150,8 @@ def execute(prop, seed, idx, tree=None, keep=False, tier="quick",
             shutil.rmtree(work, ignore_errors=True)
     res["digest"] = log.digest()
     res["nev"] = log.n
-    res["kinds"] = tuple(log.kinds)
+    import hashlib as _hl
+    res["kinds"] = _hl.sha256(repr(log.kinds).encode()).hexdigest()[:16]
     res["stats"] = dict(ctx.stats)
     res["known_seen"] = dict(ctx.known_seen)
     res["states"] = sorted(ctx.states)
